@@ -419,9 +419,83 @@ def run_app_script(cfg, ops, variant, rng_seed):
         run.close()
 
 
+class Hung(Exception):
+    pass
+
+
+HANG_S = 40
+
+
+def run_guarded(fn, *a):
+    """Run fn in a helper thread.  A run that has not finished after HANG_S
+    seconds (they take milliseconds) and whose thread sits on the very same
+    stack two seconds later is stuck for good."""
+    import sys
+    import time
+    import traceback
+    box = {}
+
+    def target():
+        try:
+            box['r'] = fn(*a)
+        except BaseException as e:  # noqa
+            box['e'] = e
+    th = threading.Thread(target=target, daemon=True)
+    th.start()
+    th.join(HANG_S)
+    if th.is_alive():
+        def stack():
+            f = sys._current_frames().get(th.ident)
+            return traceback.format_stack(f) if f is not None else None
+        s1 = stack()
+        time.sleep(2)
+        s2 = stack()
+        if s1 is not None and s1 == s2 and th.is_alive():
+            raise Hung(''.join(s1[-8:]))
+        th.join(HANG_S * 3)
+        if th.is_alive():
+            raise core.Inconclusive('a scenario run did not finish')
+    if 'e' in box:
+        raise box['e']
+    return box['r']
+
+
+class Unserialisable:
+    """What applications keep in user sessions: any Python object."""
+
+    def __init__(self, n):
+        self.n = n
+
+    def __eq__(self, other):
+        return isinstance(other, Unserialisable) and other.n == self.n
+
+    def __repr__(self):
+        return '<object %d>' % self.n
+
+    def __deepcopy__(self, memo):
+        return Unserialisable(self.n)
+
+
 def part_transparency(ctx, k):
     rng = ctx.case_rng(k)
     cfg0, ops0 = c14.gen_server_script(rng)
+    # a client that went away silently is found dead by the next send to it
+    opened = [i for i, op in enumerate(ops0) if op[0] == 'open']
+    if opened and rng.random() < 0.35:
+        i = rng.choice(opened)
+        ops0.insert(rng.randint(i + 1, len(ops0)), ['stale', ops0[i][1]])
+        ctx.count('transparency_scripts_with_silently_dead_client')
+    # sessions hold arbitrary Python objects; the client then leaves the
+    # namespace and comes back on the same transport
+    conns = [(op[1], op[2]) for op in ops0 if op[0] == 'connect']
+    if conns and rng.random() < 0.35:
+        t, ns = rng.choice(conns)
+        ops0 += [['save_session', ['sid', t, ns], ns,
+                  {'user': Unserialisable(k), 'n': 1}],
+                 ['cdisc', t, ns], ['connect', t, ns, None],
+                 ['event', t, ns, 'ev0', [k], None],
+                 ['get_session', ['sid', t, ns], ns]]
+        ctx.count('transparency_scripts_with_object_in_session')
     cfg, ops = c14.materialise(cfg0, ops0)
     kind = 'sync' if rng.random() < 0.5 else 'async'
     cfg['kind'] = kind
@@ -440,8 +514,20 @@ def part_transparency(ctx, k):
     ops0 = [ops0[i] for i in keep]
     variant = rng.choice(['admin_dev', 'admin_dev', 'noadmin_dev',
                           'admin_prod', 'noadmin_prod'])
-    ta, ra, _ = run_app_script(cfg, ops, 'plain', k)
-    tb, rb, (pre, nadm) = run_app_script(cfg, ops, variant, k)
+    ta, ra, _ = run_guarded(run_app_script, cfg, ops, 'plain', k)
+    try:
+        tb, rb, (pre, nadm) = run_guarded(run_app_script, cfg, ops, variant,
+                                          k)
+    except Hung as e:
+        ctx.violation(None, 'the instrumented (%s) %s server never finished '
+                      'a scenario that the plain server completed: stuck at'
+                      ' %s' % (variant, kind, str(e).strip().splitlines()[-2:
+                                                                          ]),
+                      {'part': 'transparency', 'case_index': k,
+                       'variant': variant, 'kind': kind,
+                       'config': core.jsonable(cfg0),
+                       'ops': core.jsonable(ops0), 'stack': str(e)})
+        return
     ctx.count('transparency_scripts')
     ctx.count('transparency_ops_compared', len(ops))
     ctx.count('transparency_frames_compared',
